@@ -498,14 +498,18 @@ fn parse_rel(s: &str) -> RelMap {
 /// A complaint is the known finding only if it is a *hole* of such an index that a refusal explains: every
 /// document with a missing posting has a missing key that another document owns in the index (unique
 /// refusal; `insert_array` refuses all of a document's keys at once), resp. a vector of another dimension.
-fn is_f_c02_2(key: &str, expected: &str, observed: &str, tainted: &HashMap<String, usize>, docs: &BTreeMap<u64, ADoc>) -> bool {
+fn is_f_c02_2(key: &str, expected: &str, observed: &str, tainted: &HashMap<String, usize>, refused: &mut HashMap<String, BTreeSet<u64>>, docs: &BTreeMap<u64, ADoc>) -> bool {
     let parts: Vec<&str> = key.split(':').collect();
     match parts.as_slice() {
         ["bt", name, "hole"] if tainted.contains_key(*name) => {
             let (exp, obs) = (parse_rel(expected), parse_rel(observed));
             let mut missing: BTreeMap<u64, Vec<String>> = BTreeMap::new();
             for (k, ids) in &exp { for id in ids { if !obs.get(k).is_some_and(|o| o.contains(id)) { missing.entry(*id).or_default().push(k.clone()); } } }
-            !missing.is_empty() && missing.iter().all(|(id, ks)| ks.iter().any(|k| obs.get(k).is_some_and(|o| o.iter().any(|j| j != id))))
+            // a document once refused by this index stays missing from it (also after the owner of the key is removed)
+            let known = refused.entry(name.to_string()).or_default();
+            let ok = !missing.is_empty() && missing.iter().all(|(id, ks)| known.contains(id) || ks.iter().any(|k| obs.get(k).is_some_and(|o| o.iter().any(|j| j != id))));
+            if ok { known.extend(missing.keys().copied()); }
+            ok
         }
         ["filter", _, name] if tainted.contains_key(*name) => {
             // the public path over the same incomplete index: it returns a subset of the expected ids
@@ -597,6 +601,7 @@ pub async fn run_real(ops: &[String]) -> Result<CaseRun, String> {
     let mut last: Option<Observed> = None;
     // indexes created in the callback of a post-crash open (name -> 0, "hn" -> dimension), while registered
     let mut tainted: HashMap<String, usize> = HashMap::new();
+    let mut refused: HashMap<String, BTreeSet<u64>> = HashMap::new();
     let mut i = 0usize;
     while i < ops.len() {
         let line = &ops[i];
@@ -643,7 +648,7 @@ pub async fn run_real(ops: &[String]) -> Result<CaseRun, String> {
                     match t.as_slice() {
                         ["mkbt", rank, _] if crashed && rec.out == "ok" => { if let Some((name, _)) = bt_by_rank(rank.parse().unwrap_or(99)) { tainted.insert(name.to_string(), 0); } }
                         ["mkhn", _, dim] if crashed && rec.out == "ok" => { tainted.insert("hn".into(), dim.parse().unwrap_or(0)); }
-                        ["rmbt", rank] if rec.out == "removed 1" => { if let Some((name, _)) = bt_by_rank(rank.parse().unwrap_or(99)) { tainted.remove(name); } }
+                        ["rmbt", rank] if rec.out == "removed 1" => { if let Some((name, _)) = bt_by_rank(rank.parse().unwrap_or(99)) { tainted.remove(name); refused.remove(name); } }
                         ["rmhn", _] if rec.out == "removed 1" => { tainted.remove("hn"); }
                         _ => {}
                     }
@@ -651,11 +656,11 @@ pub async fn run_real(ops: &[String]) -> Result<CaseRun, String> {
                 for (n, (mut rec, obs)) in recs.into_iter().enumerate() {
                     // inside the open callback after a crash the collection is loaded but not yet recovered:
                     // neither compared nor judged (recovery runs after the callback)
-                    if crashed { rec.dump = "unrecovered".into(); } else { for (k, w, e, o) in obs.complaints { let k = if is_f_c02_2(&k, &e, &o, &tainted, &obs.docs) { F_C02_2.to_string() } else { k }; run.complaints.push((i + n, k, w, e, o)); } }
+                    if crashed { rec.dump = "unrecovered".into(); } else { for (k, w, e, o) in obs.complaints { let k = if is_f_c02_2(&k, &e, &o, &tainted, &mut refused, &obs.docs) { F_C02_2.to_string() } else { k }; run.complaints.push((i + n, k, w, e, o)); } }
                     run.steps.push(rec);
                 }
                 let after = observe(&c, &mut dict, probe).await;
-                if crashed { for (k, w, e, o) in after.complaints.clone() { let k = if is_f_c02_2(&k, &e, &o, &tainted, &after.docs) { F_C02_2.to_string() } else { format!("after-crash:{k}") }; run.complaints.push((j - 1, k, format!("after crash recovery: {w}"), e, o)); } }
+                if crashed { for (k, w, e, o) in after.complaints.clone() { let k = if is_f_c02_2(&k, &e, &o, &tainted, &mut refused, &after.docs) { F_C02_2.to_string() } else { format!("after-crash:{k}") }; run.complaints.push((j - 1, k, format!("after crash recovery: {w}"), e, o)); } }
                 if let Some(b) = &before_reopen && j == i + 1 && *b != after.dump {
                     run.complaints.push((i, "reopen:changed-state".into(), "a clean close + open changed what the collection shows".into(), b.clone(), after.dump.clone()));
                 }
@@ -725,7 +730,7 @@ pub async fn run_real(ops: &[String]) -> Result<CaseRun, String> {
             let want: Vec<u64> = obs.docs.iter().filter(|(_, d)| keys_of(d, fields).iter().any(|k| k.parse::<i64>().is_ok_and(|n| q.accepts(n)))).map(|(id, _)| *id).collect();
             if csv(&want) != ids {
                 let key = format!("filter:{}:{name}", q.shape());
-                let key = if is_f_c02_2(&key, &csv(&want), ids, &tainted, &obs.docs) { F_C02_2.to_string() } else { key };
+                let key = if is_f_c02_2(&key, &csv(&want), ids, &tainted, &mut refused, &obs.docs) { F_C02_2.to_string() } else { key };
                 run.complaints.push((i, key, format!("range filter {rq} on index {name} is not the set of live documents with a matching stored value"), csv(&want), ids.to_string()));
             }
         }
@@ -734,7 +739,7 @@ pub async fn run_real(ops: &[String]) -> Result<CaseRun, String> {
             run.complaints.push((i, format!("rejected:{shape}:{out}:left-a-trace"), format!("a rejected {shape} ({out}) changed what the collection shows"), b.dump.clone(), obs.dump.clone()));
         }
         if c.is_poisoned() { run.complaints.push((i, "poisoned".into(), "the handle poisoned itself on a storage backend that never fails".into(), "healthy handle".into(), "poisoned".into())); }
-        for (k, w, e, o) in obs.complaints.clone() { let k = if is_f_c02_2(&k, &e, &o, &tainted, &obs.docs) { F_C02_2.to_string() } else { k }; run.complaints.push((i, k, w, e, o)); }
+        for (k, w, e, o) in obs.complaints.clone() { let k = if is_f_c02_2(&k, &e, &o, &tainted, &mut refused, &obs.docs) { F_C02_2.to_string() } else { k }; run.complaints.push((i, k, w, e, o)); }
         run.steps.push(StepRec { op: line.clone(), out, dump: obs.dump.clone(), tag: String::new() });
         last = Some(obs);
         i += 1;
@@ -839,73 +844,107 @@ fn gen_ix_op(r: &mut Rng) -> String {
     }
 }
 
-/// A unique value changes hands between the last flush and a power loss (ids 1, 2 are flushed; the
-/// release is a remove or an update of document 1; the taker is a new document or the flushed document 2),
-/// then crash recovery, a contender for the value, an `Eq` probe and a second reopen.
+/// A unique value changes hands between the last flush and a power loss. Documents 1, 2 and 3 are flushed and
+/// hold distinct values in every unique place. Shapes: (a) hand-over — the releaser is any of them (remove, or
+/// update of a random non-empty subset of its unique places), the taker is a new document or, just as often,
+/// another FLUSHED document with a lower or a higher id than the releaser (both id directions: a replay that
+/// goes document by document in id order survives only one of them); (b) rotation — the values of one place
+/// rotate among the three flushed documents through a temporary value, upwards or downwards in id order.
+/// Then crash recovery, a contender for the value, `Eq` probes, a second reopen (clean or another power loss).
 fn gen_handover(r: &mut Rng, g: &GenCfg, ops: &mut Vec<String>) -> u64 {
     let line = |r: &mut Rng, head: &str, fixed: &[(usize, Val)]| -> String {
         let fvs: Vec<(usize, Val)> = FIELDS.iter().map(|f| (f.num, fixed.iter().find(|x| x.0 == f.num).map(|x| x.1.clone()).unwrap_or_else(|| match f.num { 1..=5 => Val::Null, _ => gen_val(r, f, g) }))).collect();
         format!("{head} {}", join(fvs.iter().map(|(f, v)| format!("{f}={}", v.show())), " "))
     };
-    // the values document 1 holds in its unique places: u, e, ut, (a, b)
-    let held = vec![(1, Val::Int(20)), (2, Val::Int(7)), (3, Val::Arr(vec![20, 21])), (4, Val::Int(7)), (5, Val::Int(7))];
-    ops.push(line(r, "add", &held));
-    let e2 = if r.chance(1, 2) { Val::Int(8) } else { Val::Null };
-    ops.push(line(r, "add", &[(1, Val::Int(21)), (2, e2), (3, Val::Arr(vec![22])), (4, Val::Int(7)), (5, Val::Int(8))]));
-    let mut next = 3u64;
-    if r.chance(1, 3) { ops.push(line(r, "add", &[(1, Val::Int(25)), (2, Val::Null), (3, Val::Arr(vec![])), (4, Val::Int(8)), (5, Val::Null)])); next += 1; }
+    // what document d (1..=3) holds in its unique places: u, e, one element of ut, (a, b)
+    let u_of = |d: u64| 19 + d as i64;          // 20 21 22
+    let e_of = |d: u64| 5 + d as i64;           // 6 7 8
+    let t_of = |d: u64| 29 + d as i64;          // 30 31 32  (ut = [t, t + 10])
+    let b_of = |d: u64| 6 + d as i64;           // (a, b) = (7, 7) (7, 8) (7, 9)
+    for d in 1..=3u64 {
+        ops.push(line(r, "add", &[(1, Val::Int(u_of(d))), (2, Val::Int(e_of(d))), (3, Val::Arr(vec![t_of(d), t_of(d) + 10])), (4, Val::Int(7)), (5, Val::Int(b_of(d)))]));
+    }
+    let mut next = 4u64;
     ops.push(if r.chance(2, 3) { "flush".into() } else { "reopen".into() });
-    // which unique places are released
-    let places: Vec<usize> = [1usize, 2, 3, 4].iter().copied().filter(|_| r.chance(1, 2)).collect();
-    let places = if places.is_empty() { vec![*r.pick(&[1usize, 2, 3, 4])] } else { places };
-    let by_remove = r.chance(1, 3);
-    if by_remove { ops.push("rm 1".into()); } else {
-        let mut fvs: Vec<String> = vec![];
-        for p in &places {
-            match p { 1 => fvs.push("1=i23".into()), 2 => fvs.push(if r.chance(1, 2) { "2=~".into() } else { "2=i6".to_string() }), 3 => fvs.push(if r.chance(1, 2) { "3=a21".into() } else { "3=a-".to_string() }), _ => fvs.push(if r.chance(1, 2) { "5=i9".into() } else { "5=~".to_string() }) }
-        }
-        ops.push(format!("upd 1 {}", fvs.join(" ")));
-    }
-    // the taker gets the released values (all of them after a remove)
-    let taken: Vec<(usize, Val)> = {
-        let all = by_remove;
-        let mut t = vec![];
-        t.push((1, if all || places.contains(&1) { Val::Int(20) } else { Val::Int(24) }));
-        t.push((2, if all || places.contains(&2) { Val::Int(7) } else { Val::Null }));
-        t.push((3, if all || places.contains(&3) { Val::Arr(vec![20]) } else { Val::Arr(vec![]) }));
-        if all || places.contains(&4) { t.push((4, Val::Int(7))); t.push((5, Val::Int(7))); } else { t.push((4, Val::Int(9))); t.push((5, Val::Int(9))); }
-        t
-    };
-    if r.chance(2, 3) {
-        ops.push(line(r, "add", &taken));
-        let b = next;
-        next += 1;
-        // a second hop before the power loss: the new holder passes the scalar value on to yet another new document
-        if (by_remove || places.contains(&1)) && r.chance(1, 4) {
-            ops.push(format!("upd {b} 1=i27"));
-            ops.push(line(r, "add", &[(1, Val::Int(20)), (2, Val::Null), (3, Val::Arr(vec![])), (4, Val::Int(6)), (5, Val::Int(6))]));
-            next += 1;
-        }
+    let mut probes: Vec<String> = vec![];
+    let contender: Vec<(usize, Val)>;
+    if r.chance(1, 4) {
+        // (b) rotation of one place among the three flushed documents
+        let up = r.chance(1, 2);
+        let order: [u64; 3] = if up { [1, 2, 3] } else { [3, 2, 1] };
+        let place = r.below(3);
+        let set = |d: u64, from: u64, tmp: bool| -> String {
+            match place {
+                0 => format!("upd {d} 1=i{}", if tmp { 90 } else { u_of(from) }),
+                1 => format!("upd {d} 2=i{}", if tmp { 0 } else { e_of(from) }),
+                _ => format!("upd {d} 3=a{}", if tmp { "-".to_string() } else { format!("{},{}", t_of(from), t_of(from) + 10) }),
+            }
+        };
+        // order[0] steps aside, order[1] takes order[0]'s value, order[2] takes order[1]'s, order[0] takes order[2]'s
+        ops.push(set(order[0], 0, true));
+        ops.push(set(order[1], order[0], false));
+        ops.push(set(order[2], order[1], false));
+        if r.chance(3, 4) { ops.push(set(order[0], order[2], false)); }
+        contender = vec![(1, Val::Int(u_of(1))), (2, Val::Int(e_of(1))), (3, Val::Arr(vec![t_of(1)])), (4, Val::Int(3)), (5, Val::Int(3))];
+        for d in 1..=3u64 { probes.push(format!("q {} eq:{}", bt_rank(["u", "e", "ut"][place as usize]), [u_of(d), e_of(d), t_of(d)][place as usize])); }
     } else {
-        // among flushed documents: document 2 takes them by an update (both sides only have intents)
-        ops.push(format!("upd 2 {}", join(taken.iter().map(|(f, v)| format!("{f}={}", v.show())), " ")));
+        // (a) hand-over
+        let rel = 1 + r.below(3);
+        let places: Vec<usize> = [1usize, 2, 3, 4].iter().copied().filter(|_| r.chance(1, 2)).collect();
+        let places = if places.is_empty() { vec![*r.pick(&[1usize, 2, 3, 4])] } else { places };
+        let by_remove = r.chance(1, 3);
+        if by_remove { ops.push(format!("rm {rel}")); } else {
+            let mut fvs: Vec<String> = vec![];
+            for p in &places {
+                match p { 1 => fvs.push(format!("1=i{}", 50 + rel)), 2 => fvs.push(if r.chance(1, 2) { "2=~".into() } else { "2=i1".to_string() }), 3 => fvs.push(if r.chance(1, 2) { format!("3=a{}", t_of(rel) + 10) } else { "3=a-".to_string() }), _ => fvs.push(if r.chance(1, 2) { "5=i1".into() } else { "5=~".to_string() }) }
+            }
+            ops.push(format!("upd {rel} {}", fvs.join(" ")));
+        }
+        let has = |p: usize| by_remove || places.contains(&p);
+        // the values that changed hands (the contender asks for the same ones)
+        let mut taken: Vec<(usize, Val)> = vec![];
+        if has(1) { taken.push((1, Val::Int(u_of(rel)))); }
+        if has(2) { taken.push((2, Val::Int(e_of(rel)))); }
+        if has(3) { taken.push((3, Val::Arr(vec![t_of(rel)]))); }
+        if has(4) { taken.push((4, Val::Int(7))); taken.push((5, Val::Int(b_of(rel)))); }
+        if r.chance(1, 2) {
+            // a FLUSHED document takes them by an update: lower or higher id than the releaser
+            let others: Vec<u64> = (1..=3u64).filter(|d| *d != rel).collect();
+            let tak = *r.pick(&others);
+            ops.push(format!("upd {tak} {}", join(taken.iter().map(|(f, v)| format!("{f}={}", v.show())), " ")));
+        } else {
+            let mut fresh = taken.clone();
+            if !has(1) { fresh.push((1, Val::Int(60))); }
+            if !has(3) { fresh.push((3, Val::Arr(vec![]))); }
+            if !has(4) { fresh.push((4, Val::Int(9))); fresh.push((5, Val::Int(9))); }
+            ops.push(line(r, "add", &fresh));
+            let b = next;
+            next += 1;
+            // a second hop before the power loss: the new holder passes the scalar value on to yet another new document
+            if has(1) && r.chance(1, 4) {
+                ops.push(format!("upd {b} 1=i61"));
+                ops.push(line(r, "add", &[(1, Val::Int(u_of(rel))), (3, Val::Arr(vec![])), (4, Val::Int(6)), (5, Val::Int(6))]));
+                next += 1;
+            }
+        }
+        contender = { let mut c = taken.clone(); if !has(1) { c.push((1, Val::Int(70))); } if !has(3) { c.push((3, Val::Arr(vec![]))); } if !has(4) { c.push((4, Val::Int(4))); c.push((5, Val::Int(4))); } c };
+        probes.push(format!("q {} eq:{}", bt_rank("u"), u_of(rel)));
+        probes.push(format!("q {} eq:{}", bt_rank("e"), e_of(rel)));
+        probes.push(format!("q {} eq:{}", bt_rank("ut"), t_of(rel)));
     }
-    if r.chance(1, 3) { ops.push(line(r, "add", &[(1, Val::Int(26)), (2, Val::Null), (3, Val::Arr(vec![])), (4, Val::Int(8)), (5, Val::Int(1))])); next += 1; }
-    if r.chance(1, 4) { ops.push("upd 2 8=t1".into()); }
+    if r.chance(1, 4) { ops.push(format!("upd {} 8=t1", 1 + r.below(3))); }
     // an unflushed document that is also updated: it has an intent *and* lies in the repair-scan window, above
     // another unflushed document
     if r.chance(1, 3) {
-        ops.push(line(r, "add", &[(1, Val::Int(28)), (2, Val::Null), (3, Val::Arr(vec![])), (4, Val::Int(5)), (5, Val::Int(5))]));
-        ops.push(format!("upd {next} {}", if r.chance(1, 2) { "1=i29" } else { "8=t2" }));
+        ops.push(line(r, "add", &[(1, Val::Int(80)), (3, Val::Arr(vec![])), (4, Val::Int(5)), (5, Val::Int(5))]));
+        ops.push(format!("upd {next} {}", if r.chance(1, 2) { "1=i81" } else { "8=t2" }));
         next += 1;
     }
     ops.push("crash".into());
     ops.push("check".into());
-    ops.push(line(r, "add", &taken)); // a contender for the handed-over values
+    ops.push(line(r, "add", &contender)); // a contender for the handed-over values
     next += 1;
-    ops.push(format!("q {} eq:20", bt_rank("u")));
-    ops.push(format!("q {} eq:7", bt_rank("e")));
-    ops.push(format!("q {} eq:20", bt_rank("ut")));
+    ops.extend(probes);
     ops.push(if r.chance(1, 4) { "crash".into() } else { "reopen".into() });
     ops.push("check".into());
     next
